@@ -1343,13 +1343,23 @@ class TaskPool:
           - partially satisfied prerequisites (below stop point)
           - runahead-limited tasks (held back by the above)
         """
+        # Newly spawned tasks are runahead-limited until released at the start
+        # of the next main loop iteration: if within the (current) limit they
+        # are not held back by anything.
+        self.compute_runahead()
         if any(
             itask.state(
                 *TASK_STATUSES_ACTIVE,
                 TASK_STATUS_PREPARING
             ) or (
                 itask.state(TASK_STATUS_WAITING)
-                and not itask.state.is_runahead
+                and (
+                    not itask.state.is_runahead
+                    or (
+                        self.runahead_limit_point is not None
+                        and itask.point <= self.runahead_limit_point
+                    )
+                )
                 # (avoid waiting pre-spawned absolute-triggered tasks:)
                 and itask.prereqs_are_satisfied()
             ) for itask in self.get_tasks()
